@@ -75,6 +75,25 @@ CLAIMED = {
             "conservation of the sounding set, re-strike velocity, non-note events at their ticks and source unchanged "
             "(both views).",
             "Bounded scope; an event on a boundary is required in the later piece (as the reference system defines).", "6 (C08)"),
+    "C09": ("Bars", "TLC model check of the bar-grid loop of Bars.tla + generated multi-track inputs run through the real "
+            "sequences_split_bars + TLC trace validation against the expected grid",
+            "TLC checks that the per-bar loop (signatures picked up at bar starts, advance by the bar length) produces a "
+            "contiguous grid that covers the longest track with less than a bar to spare and agrees with the recursive "
+            "definition the acceptor uses, for 8 boundary-aligned signature/key plans x 13 durations. Inputs formed from "
+            "those plans x 516 track scores (1-3 tracks, unequal lengths, empty tracks, notes across bar lines, any meta "
+            "index, both re-quantisation settings) go through the real code; TLC evaluates equal counts, bar lengths, "
+            "signature and key per bar, coverage, sounding-set conservation (exact / subset with uncut allowed-length "
+            "notes intact), closed bars and inputs unchanged.",
+            "Signature changes on bar lines (the property's precondition) are re-checked by the validator; with "
+            "re-quantisation on, only notes with default note values that cross no bar line are required intact.", "6 (C09/C10)"),
+    "C10": ("Bars", "generated constructor cases (written by TLC from Bars.tla) run through the real Bar constructor and "
+            "copy + TLC trace validation of the C10 acceptor; the grid loop model is checked alongside",
+            "Every combination of 9 signatures x 20 note sets x 8 signature-event plans x 7 durations relative to the "
+            "capacity (10,080 cases) plus seeded random ones is constructed; TLC requires either a BarException or "
+            "exact length in both views with exactly one leading matching signature, rejection of over-long, conflicting "
+            "and second signatures, and an equal copy.",
+            "Signatures whose capacity is not an integer number of ticks are outside the generated space; the identical "
+            "repeated signature is a recorded open finding.", "6 (C09/C10)"),
 }
 PENDING = {}
 props = [json.loads(l) for l in open(V / "properties.jsonl")]
